@@ -19,6 +19,7 @@ mod c29;
 mod c30;
 mod c31;
 mod c34;
+mod c20;
 mod c24;
 mod c35;
 mod wf;
@@ -75,6 +76,8 @@ fn main() {
         "c31-child" => c31::child(rest),
         "c31-drive" => c31::drive(rest),
         "c34-replay" => c34::replay(rest),
+        "c20-replay" => c20::replay(rest),
+        "c21-replay" => c20::replay_update(rest),
         "c24-run" => c24::run(rest),
         "c35-run" => c35::run(rest),
         "wf-run" => wf::run(rest),
